@@ -81,6 +81,20 @@ func render(n *Node) string {
 	switch n.K {
 	case "probe":
 		return "p(" + id + ")"
+	case "gopanic":
+		// a script function (one to four parameters, first argument not a literal) whose body fails INSIDE Go, past every
+		// check of the interpreter (a length no slice can have: refused before anything is allocated): for the CALLER that
+		// is an error of the call expression like any other, raised once
+		ps, as := "a", "gv" + id
+		switch n.N % 4 {
+		case 1:
+			ps, as = "a, b", "gv"+id+", 2"
+		case 2:
+			ps, as = "a, b, c", "gv"+id+", 2, 3"
+		case 3:
+			ps, as = "a, b, c, d", "gv"+id+", p("+strconv.Itoa(n.Val)+"), 3, 4"
+		}
+		return "func gp" + id + "(" + ps + ") {\np(" + id + ")\nmake([]int64, 4611686018427387904)\n}\ngv" + id + " = " + id + "\ngp" + id + "(" + as + ")"
 	case "func":
 		ps, as := argList(n.N)
 		return "func f" + id + "(" + ps + ") {\n" + renderList(n.Body) + "\n}\nf" + id + "(" + as + ")"
@@ -545,6 +559,18 @@ func (m *model) exec(n *Node, fr *frame) sig {
 	switch n.K {
 	case "probe":
 		return m.host("p:" + id)
+	case "gopanic":
+		if n.N%4 == 3 {
+			if s := m.host("p:" + strconv.Itoa(n.Val)); s.kind != 0 {
+				return s
+			}
+		}
+		return m.call(func(f *frame) sig {
+			if s := m.host("p:" + id); s.kind != 0 {
+				return s
+			}
+			return sig{kind: 1, msg: anyMsg}
+		})
 	case "func", "funcvar", "anoncall":
 		r := m.call(func(f *frame) sig { return m.list(n.Body, f) })
 		if r.kind == 1 {
@@ -1099,6 +1125,8 @@ func (g *gen) stmt(c gctx) *Node {
 				}
 			}
 			return n
+		case k == 19 && g.r.Intn(6) == 0:
+			return &Node{K: "gopanic", ID: id, N: g.r.Intn(4), Val: g.id()}
 		case k == 19:
 			return &Node{K: "probe", ID: id}
 		}
